@@ -62,9 +62,10 @@ def rich_structs():
         {"k": "struct", "name": "Dflt", "fields": [
             F(1, "default", T("i32"), "a", {"i": 7}), F(2, "optional", T("string"), "b", {"s": "hi"}),
             F(3, "optional", T("E"), "e", {"id": "E.B"}), F(4, "optional", T("i64"), "c")]},
-        {"k": "struct", "name": "DL", "fields": [
-            F(1, "default", T("list", T("Dflt")), "l"), F(2, "default", T("map", T("string"), T("Dflt")), "m"),
-            F(3, "default", T("Dflt"), "d"), F(4, "optional", T("Dflt"), "o"), F(5, "default", T("set", T("Dflt")), "s")]},
+        {"k": "struct", "name": "DLl", "fields": [F(1, "default", T("list", T("Dflt")), "l")]},
+        {"k": "struct", "name": "DLm", "fields": [F(1, "default", T("map", T("string"), T("Dflt")), "m")]},
+        {"k": "struct", "name": "DLd", "fields": [F(1, "default", T("Dflt"), "d"), F(2, "optional", T("Dflt"), "o")]},
+        {"k": "struct", "name": "DLs", "fields": [F(1, "default", T("set", T("Dflt")), "s")]},
         {"k": "struct", "name": "Req3", "fields": [
             F(1, "required", T("i32"), "a"), F(2, "required", T("string"), "b"), F(3, "required", T("list", T("i32")), "c")]},
     ]
